@@ -32,7 +32,11 @@ def gen_cases(tier, seed):
             if total + n > 64:
                 break
             total += n
-            m.append([0x2000 + k if rng.random() < 0.7 else 0x6000 + k, 0 if rng.random() < 0.7 else k + 1, n])
+            if m and rng.random() < 0.2:
+                # the same object once more (another part of it, possibly with another bit length)
+                m.append([m[-1][0] & ~0x100, m[-1][1], n])
+            else:
+                m.append([0x2000 + k if rng.random() < 0.7 else 0x6000 + k, 0 if rng.random() < 0.7 else k + 1, n])
         # a record member and a plain variable must not share an index
         for e in m:
             if e[1] != 0:
